@@ -8,12 +8,12 @@ package sx
 
 import (
 	"fmt"
-	"strings"
 	"go/token"
 	"go/types"
 	"os"
 	"runtime"
 	"slices"
+	"strings"
 	_ "unsafe"
 
 	"golang.org/x/tools/go/ssa"
@@ -30,7 +30,7 @@ const (
 type methodSet map[string]*ssa.Function
 
 // Engine-level panics (never visible to the target's recover).
-type unsupported string         // construct/model missing: run is inconclusive
+type unsupported string           // construct/model missing: run is inconclusive
 type pathEnd struct{ why string } // path terminated normally (assume false, assertion failed, ...)
 type budgetExceeded struct{ what string }
 
@@ -64,6 +64,18 @@ type interpreter struct {
 	sched              *scheduler
 	cur                *thread
 	top                *frame // innermost frame (left at the panic site when unwinding)
+}
+
+func (i *interpreter) whereAmI() string {
+	if i.top == nil {
+		return ""
+	}
+	fr := i.top
+	s := fr.fn.String()
+	if fr.caller != nil {
+		s += " <- " + fr.caller.fn.String()
+	}
+	return s
 }
 
 // targetStack renders the target-level call stack of the innermost frame.
